@@ -89,7 +89,7 @@ def _ctx_excluded(o):
     """orders in which default collation is triggered by a `before` member after a raw none-mode member already ran:
     with return_ctx the current pipeline splits ctx off for the none-mode member and then splits again in the `before`
     branch - not served by the code, therefore driven only without ctx (see ASSUMPTIONS)"""
-    if os.environ.get("KDV_C18_CTX_AFTER_RAW") == "1":
+    if os.environ.get("KDV_C18_CTX_AFTER_RAW", "1") == "1":  # driven by default since the repository repair 8527d82
         return False
     i = o.find("b")
     return i > 0 and set(o[:i]) == {"r"}
@@ -332,6 +332,11 @@ def _run_pipe(run, spec):
         # the reference's collation point, the pipeline mishandled already collated data (second default collation,
         # second ctx split): one mechanism, whatever exception it surfaces as.
         logged = sum(1 for m in members if m.log)
+        ms = spec["members"]
+        if (has_ctx and 0 < logged < len(ms) and ms[logged]["cmode"] == "before"
+                and all(m["cmode"] is None and m.get("raw") for m in ms[:logged])):
+            # only reachable with KDV_C18_CTX_AFTER_RAW=1 (see ASSUMPTIONS)
+            return "pipeline:ctx-split-twice-behind-raw-none-member"
         if model["trigger"] is not None and model["trigger"][1] < logged:
             return K_STATE
         return "pipeline:refused-in-domain" if kind == "guard" else "pipeline:crash"
